@@ -74,9 +74,13 @@ class RateLimiter(BaseRateLimiter):
     def evaluate_rules(self, rules, timestamps):
         now = self._timestamp()
         if timestamps:
-            if (now - timestamps[0]) > max(rules)[0]:
+            longest = max(rules)[0]
+            if (now - timestamps[0]) > longest:
                 timestamps.clear()
             else:
+                # forget what no rule can count any more (newest first)
+                while timestamps and (now - timestamps[-1]) >= longest:
+                    timestamps.pop()
                 for interval, freq in rules:
                     count = 0
                     for ts in timestamps:
